@@ -16,8 +16,16 @@ enum Kind {
     Back,
 }
 
+thread_local! {
+    // "proper" nesting: the outer macro is built with the inner macro's own params()
+    // (spec levels separated by '+'); with ',' every level gets the BASE params, as the
+    // repository's own tests do.
+    static PROPER: std::cell::Cell<bool> = const { std::cell::Cell::new(false) };
+}
+
 fn parse_spec(s: &str) -> Option<Vec<(Kind, usize)>> {
-    s.split(',')
+    PROPER.with(|p| p.set(s.contains('+')));
+    s.split([',', '+'])
         .map(|lv| {
             let (k, n) = lv.split_once(':')?;
             let n: usize = n.parse().ok()?;
@@ -141,29 +149,29 @@ macro_rules! with_chain {
             [(Kind::Block, k1), (Kind::Block, k2)] => {
                 let ia = make_block_macro(comp, params, *k1);
                 let ib = make_block_macro(comp, params, *k1);
-                let $a = make_block_macro(&ia, params, *k2);
-                let $b = make_block_macro(&ib, params, *k2);
+                let $a = make_block_macro(&ia, if PROPER.with(|p| p.get()) { ia.params() } else { params }, *k2);
+                let $b = make_block_macro(&ib, if PROPER.with(|p| p.get()) { ib.params() } else { params }, *k2);
                 Some($body)
             },
             [(Kind::Block, k1), (Kind::Back, k2)] => {
                 let ia = make_block_macro(comp, params, *k1);
                 let ib = make_block_macro(comp, params, *k1);
-                let $a = make_backsymbol_macro(&ia, params, *k2);
-                let $b = make_backsymbol_macro(&ib, params, *k2);
+                let $a = make_backsymbol_macro(&ia, if PROPER.with(|p| p.get()) { ia.params() } else { params }, *k2);
+                let $b = make_backsymbol_macro(&ib, if PROPER.with(|p| p.get()) { ib.params() } else { params }, *k2);
                 Some($body)
             },
             [(Kind::Back, k1), (Kind::Block, k2)] => {
                 let ia = make_backsymbol_macro(comp, params, *k1);
                 let ib = make_backsymbol_macro(comp, params, *k1);
-                let $a = make_block_macro(&ia, params, *k2);
-                let $b = make_block_macro(&ib, params, *k2);
+                let $a = make_block_macro(&ia, if PROPER.with(|p| p.get()) { ia.params() } else { params }, *k2);
+                let $b = make_block_macro(&ib, if PROPER.with(|p| p.get()) { ib.params() } else { params }, *k2);
                 Some($body)
             },
             [(Kind::Back, k1), (Kind::Back, k2)] => {
                 let ia = make_backsymbol_macro(comp, params, *k1);
                 let ib = make_backsymbol_macro(comp, params, *k1);
-                let $a = make_backsymbol_macro(&ia, params, *k2);
-                let $b = make_backsymbol_macro(&ib, params, *k2);
+                let $a = make_backsymbol_macro(&ia, if PROPER.with(|p| p.get()) { ia.params() } else { params }, *k2);
+                let $b = make_backsymbol_macro(&ib, if PROPER.with(|p| p.get()) { ib.params() } else { params }, *k2);
                 Some($body)
             },
             _ => None,
